@@ -446,7 +446,7 @@ func wire(v interface{}, m colMeta, binary bool) driver.Value {
 	}
 	if t, ok := v.(time.Time); ok {
 		if m.typ.isTime() || m.typ == tNull {
-			return t
+			return relabel(t, Location())
 		}
 		return []byte(fmtTime(t, TDateTime, 0))
 	}
